@@ -254,7 +254,7 @@ class Signal(object):
             filter_type = 'high'
             cut_off = cut_off[0]
 
-        filter_order = kwargs.get('filter_order', 4)
+        filter_order = int(kwargs.get('filter_order', 4))  # a NumPy unsigned order wraps inside scipy's design (-N + 1)
         remove_gibbs = kwargs.get('remove_gibbs', None)
         gibbs_extra = kwargs.get('gibbs_extra', 1)
         gibbs_range = kwargs.get('gibbs_range', 50)
